@@ -160,7 +160,7 @@ PERM_NPS = [None, None, "Radius", "LSHNearest"]
 @st.composite
 def permute_plan_st(draw, tier):
     det = draw(st.integers(0, 3)) == 0
-    cfg = draw(gen.config_st(nps=PERM_NPS, arm_kinds=("int", "str", "float", "mix"), max_arms=4, deterministic=det,
+    cfg = draw(gen.config_st(many_arms_ok=True, nps=PERM_NPS, arm_kinds=("int", "str", "float", "mix"), max_arms=4, deterministic=det,
                              with_binarizer=True, scale_ok=True, defaults_ok=True))
     fam = None
     if det and cfg["lp"][0] not in ("ThompsonSampling", "Popularity") and twin.is_deterministic(cfg):
